@@ -817,6 +817,79 @@ theorem uinv_step (F : Bytes) (u : Ul) (op : UOp) (h : UInv F u) : UInv F (ustep
       exact ⟨h.fs, fun _ => h.pos (by simp [hs]), fun _ => h.bt (by simp [hs]), h.sent,
              (fun hc => by cases hc), (fun hc => by cases hc), h.chunk⟩
     · exact h
+  | told =>
+    simp only [ustep]; split
+    · exact ⟨h.fs, h.pos, h.bt, h.sent, h.closed, h.complete, h.chunk⟩
+    · exact h
+  | untold =>
+    simp only [ustep]; split
+    · by_cases hf : u.st = .failed
+      · simp only [hf, if_true]
+        exact ⟨h.fs, fun hq => absurd rfl hq, fun hq => absurd rfl hq, h.sent,
+               (fun hc => by cases hc), (fun hc => by cases hc), h.chunk⟩
+      · simp only [hf, if_false]
+        exact ⟨h.fs, h.pos, h.bt, h.sent, h.closed, h.complete, h.chunk⟩
+    · exact h
+  | requeue =>
+    simp only [ustep]; split
+    · exact ⟨h.fs, fun hq => absurd rfl hq, fun hq => absurd rfl hq, h.sent,
+             (fun hc => by cases hc), (fun hc => by cases hc), h.chunk⟩
+    · exact h
+
+/-- the notification of a failed upload: while `PeerUploadFailed` is being sent the upload has left UPLOADING -/
+structure NInv (u : Ul) : Prop where
+  off : u.notifying = true → u.st = .failed ∨ u.st = .queued
+  run : u.st = .sending ∨ u.st = .awaitEof → u.notifying = false
+
+theorem ninv_init (F : Bytes) : NInv (Ul.init F) :=
+  ⟨fun h => by simp [Ul.init] at h, fun _ => rfl⟩
+
+theorem ninv_step (F : Bytes) (u : Ul) (op : UOp) (h : NInv u) : NInv (ustep F u op) := by
+  cases op with
+  | begin off lim =>
+    simp only [ustep]; split
+    · rename_i hc
+      exact ⟨fun hn => by simp [ubegin, hc.2] at hn, fun _ => by simp [ubegin, hc.2]⟩
+    · exact h
+  | chunk =>
+    simp only [ustep]; split
+    · rename_i hs
+      have hn := h.run (Or.inl hs)
+      split
+      · exact ⟨fun x => by simp [hn] at x, fun _ => hn⟩
+      · exact ⟨fun x => by simp [hn] at x, fun _ => hn⟩
+    · exact h
+  | werr =>
+    simp only [ustep]; split
+    · exact ⟨fun _ => Or.inl rfl, fun x => by simp at x⟩
+    · exact h
+  | closed =>
+    simp only [ustep]; split
+    · rename_i hs
+      have hn := h.run (Or.inr hs)
+      refine ⟨fun x => by simp [hn] at x, fun _ => hn⟩
+    · exact h
+  | rerr =>
+    simp only [ustep]; split
+    · exact ⟨fun _ => Or.inl rfl, fun x => by simp at x⟩
+    · exact h
+  | told =>
+    simp only [ustep]; split
+    · exact ⟨fun x => by simp at x, fun _ => rfl⟩
+    · exact h
+  | untold =>
+    simp only [ustep]; split
+    · exact ⟨fun x => by simp at x, fun _ => rfl⟩
+    · exact h
+  | requeue =>
+    simp only [ustep]; split
+    · exact ⟨fun _ => Or.inr rfl, fun x => by simp at x⟩
+    · exact h
+
+theorem ninv_run (F : Bytes) (ops : List UOp) : ∀ u, NInv u → NInv (urun F u ops) := by
+  induction ops with
+  | nil => intro u h; exact h
+  | cons op ops ih => intro u h; exact ih _ (ninv_step F u op h)
 
 theorem uinv_run (F : Bytes) (ops : List UOp) : ∀ u, UInv F u → UInv F (urun F u ops) := by
   induction ops with
@@ -875,6 +948,61 @@ theorem urun_chunks (F : Bytes) (n : Nat) : ∀ (u : Ul), u.st = .sending → 0 
       rw [g2]; dsimp only; omega
 
 /-! ### retry control plane -/
+
+/-! ## hand-shake values on the wire -/
+namespace Wire
+
+theorem leBytes_length (w : Nat) : ∀ n, (leBytes w n).length = w := by
+  induction w with
+  | zero => intro n; rfl
+  | succ w ih => intro n; simp [leBytes, ih]
+
+theorem leVal_leBytes (w : Nat) : ∀ n, leVal (leBytes w n) = n % 256 ^ w := by
+  induction w with
+  | zero => intro n; simp [leBytes, leVal, Nat.mod_one]
+  | succ w ih =>
+    intro n
+    simp only [leBytes, leVal, ih]
+    rw [Nat.pow_succ, Nat.mul_comm (256 ^ w) 256, Nat.mod_mul]
+    congr 1
+    simp
+
+theorem recvValue_send (w n : Nat) (rest : Bytes) (h : n < 256 ^ w) :
+    recvValue w w (leBytes w n ++ rest) = some (n, rest) := by
+  have hl := leBytes_length w n
+  unfold recvValue
+  rw [if_neg (by simp only [List.length_append, hl]; omega)]
+  have h1 : (leBytes w n ++ rest).take w = leBytes w n := by
+    rw [List.take_append_of_le_length (by omega), List.take_of_length_le (by omega)]
+  have h2 : (leBytes w n ++ rest).drop w = rest := by
+    rw [List.drop_append_of_le_length (by omega), List.drop_of_length_le (by omega), List.nil_append]
+  rw [h1, h2, List.take_of_length_le (by omega), leVal_leBytes, Nat.mod_eq_of_lt h]
+
+theorem recvValue_wait (read dec : Nat) (s : Bytes) (h : s.length < read) : recvValue read dec s = none := by
+  simp [recvValue, h]
+
+theorem take_leBytes (d : Nat) : ∀ w n, d ≤ w → (leBytes w n).take d = leBytes d n := by
+  induction d with
+  | zero => intro w n _; simp [leBytes]
+  | succ d ih =>
+    intro w n h
+    cases w with
+    | zero => omega
+    | succ w => simp only [leBytes, List.take_succ_cons, ih w (n / 256) (by omega)]
+
+/-- decoding fewer bytes than were sent keeps only the low part -/
+theorem recvValue_narrow (w d n : Nat) (rest : Bytes) (hd : d ≤ w) :
+    recvValue w d (leBytes w n ++ rest) = some (n % 256 ^ d, rest) := by
+  have hl := leBytes_length w n
+  unfold recvValue
+  rw [if_neg (by simp only [List.length_append, hl]; omega)]
+  have h1 : (leBytes w n ++ rest).take w = leBytes w n := by
+    rw [List.take_append_of_le_length (by omega), List.take_of_length_le (by omega)]
+  have h2 : (leBytes w n ++ rest).drop w = rest := by
+    rw [List.drop_append_of_le_length (by omega), List.drop_of_length_le (by omega), List.nil_append]
+  rw [h1, h2, take_leBytes d w n hd, leVal_leBytes]
+
+end Wire
 
 namespace Ctl
 
@@ -1051,6 +1179,36 @@ theorem inv_step (s : S) (op : Op) (h : Inv s) : Inv (step s op) := by
     split
     · exact ⟨fun _ _ => Or.inr (by simp), h2⟩
     · exact ⟨h1, h2⟩
+  | uLearnMute =>
+    simp only [step]
+    split
+    · rename_i hu
+      refine ⟨fun a b => (h1 a b).imp (fun x => ?_) id, h2⟩
+      rcases hu with hu | hu <;> subst hu <;> simpa [uHolds] using x
+    · exact ⟨h1, h2⟩
+  | dCycleFail =>
+    simp only [step]
+    split
+    · rename_i hc
+      have hq : rq = false := by
+        cases rq
+        · rfl
+        · simp at hc
+      refine ⟨fun _ b => ?_, fun a => by simp at a⟩
+      simp only at b; rw [hq] at b; exact absurd b (by simp)
+    · exact ⟨h1, h2⟩
+  | dRecvFail =>
+    cases toD with
+    | nil => exact ⟨h1, h2⟩
+    | cons m r =>
+      cases m with
+      | ptr =>
+        simp only [step]
+        split
+        · exact ⟨fun _ b => by simp at b, fun a => by simp at a⟩
+        · refine ⟨fun a b => (h1 a b).imp id (fun x => ?_), h2⟩
+          simpa using x
+      | puf => exact ⟨h1, h2⟩
   | dUser =>
     simp only [step]
     split
